@@ -1,5 +1,6 @@
 From Coq Require Import ZArith QArith Qround Qabs List Bool.
-From RV Require Export Base.PyNum Frame.Frame Lists.TimedList Lists.SeqSpec Map.Stacker Map.StackerSpec Map.Rate.
+From RV Require Export Base.PyNum Frame.Frame Lists.TimedList Lists.SeqSpec Map.Stacker Map.StackerSpec Map.Rate
+  Algo.DominantBpm Algo.ScrollSpeed Algo.AnalysisSpec Algo.PermDomain.
 Import ListNotations.
 Open Scope Q_scope.
 
@@ -11,7 +12,15 @@ Inductive c15case :=
 | CSamePairs (a b : list (Q * Q))               (* two (time, value) series: the same multiset of pairs *)
 | CSameVal (a b : Q)
 (* model-level tie for rate: scaling the permuted lists is a permutation of scaling the lists *)
-| CRatePerm (by_ : Q) (a b : list ulist).
+| CRatePerm (by_ : Q) (a b : list ulist)
+(* model-level tie for the analysis functions: ca / cb = what the routines look at in the chart and in the permuted chart
+   (tempo rows, SV rows, note offsets, in ROW ORDER), a / b = what the implementation returned on them.
+   wf  : the pair lies in the boolean domain of C15_dominant_bpm_perm_b / C15_scroll_speed_perm_b (Algo/PermDomain.v)
+   corr: the models (Algo/DominantBpm.v, ScrollSpeed.v) reproduce both outputs
+   spec: the conclusion of the theorem on the implementation's outputs (same value / same rows in the same order / same SVs) *)
+| CDomPerm (ca cb : chart) (a b : option Q)
+| CScrollPerm (ca cb : chart) (ov : option Q) (a b : option (list (Q * option Q)))
+| CNormPerm (ca cb : chart) (ov : option Q) (a b : option (list (Q * Q))).
 
 Record verdict := { corr_ok : bool; spec_ok : bool; wf_ok : bool }.
 
@@ -24,6 +33,30 @@ Fixpoint ulists_perm (a b : list ulist) : bool :=
 
 Definition pair_row (p : Q * Q) : row := [CNum (fst p); CNum (snd p)].
 
+Definition TOL : Q := 1 # 1000000000.
+Definition oq_eqb (a b : option Q) : bool :=
+  match a, b with Some x, Some y => Qeq_bool x y | None, None => true | _, _ => false end.
+Definition oq_close (a b : option Q) : bool :=
+  match a, b with Some x, Some y => q_close TOL x y | None, None => true | _, _ => false end.
+Fixpoint all2 {A B} (p : A -> B -> bool) (a : list A) (b : list B) : bool :=
+  match a, b with [], [] => true | x :: a', y :: b' => p x y && all2 p a' b' | _, _ => false end.
+Definition orows_close (m o : option (list (Q * option Q))) : bool :=
+  match m, o with
+  | Some x, Some y => all2 (fun r s => Qeq_bool (fst r) (fst s) && oq_close (snd r) (snd s)) x y
+  | None, None => true | _, _ => false end.
+Definition orows_eqb (m o : option (list (Q * option Q))) : bool :=
+  match m, o with
+  | Some x, Some y => all2 (fun r s => Qeq_bool (fst r) (fst s) && oq_eqb (snd r) (snd s)) x y
+  | None, None => true | _, _ => false end.
+Definition svs_close (m o : option (list (Q * Q))) : bool :=
+  match m, o with
+  | Some x, Some y => match_up (fun r s => Qeq_bool (fst r) (fst s) && q_close TOL (snd r) (snd s)) x y
+  | None, None => true | _, _ => false end.
+Definition svs_permb (m o : option (list (Q * Q))) : bool :=
+  match m, o with
+  | Some x, Some y => match_up (fun r s => Qeq_bool (fst r) (fst s) && Qeq_bool (snd r) (snd s)) x y
+  | None, None => true | _, _ => false end.
+
 Definition check (c : c15case) : verdict :=
   match c with
   | CSameLists a b => {| corr_ok := true; spec_ok := ulists_perm a b; wf_ok := true |}
@@ -32,6 +65,17 @@ Definition check (c : c15case) : verdict :=
   | CRatePerm by_ a b =>
       let wf := ulists_perm a b in
       {| corr_ok := negb wf || ulists_perm (rate_spec by_ a) (rate_spec by_ b); spec_ok := true; wf_ok := wf |}
+  | CDomPerm ca cb a b =>
+      let wf := dom_dominant ca cb in
+      {| corr_ok := oq_eqb (dominant_bpm ca) a && oq_eqb (dominant_bpm cb) b; spec_ok := negb wf || oq_eqb a b; wf_ok := wf |}
+  | CScrollPerm ca cb ov a b =>
+      let wf := dom_scroll ca cb in
+      {| corr_ok := orows_close (scroll_speed ca ov) a && orows_close (scroll_speed cb ov) b;
+         spec_ok := negb wf || orows_eqb a b; wf_ok := wf |}
+  | CNormPerm ca cb ov a b =>
+      let wf := dom_dominant ca cb in
+      {| corr_ok := svs_close (sv_normalize ca ov) a && svs_close (sv_normalize cb ov) b;
+         spec_ok := negb wf || svs_permb a b; wf_ok := wf |}
   end.
 
 Fixpoint failing_go (i : nat) (l : list c15case) (acc : list nat * list nat * list nat)
